@@ -197,9 +197,10 @@ def atomScan (ops : List Op) : Bytes → Bytes → Bool
   | pre, c :: t => (!startsOp ops c || (c == 45 && expHack pre)) && atomScan ops (c :: pre) t
 
 /-- bytes an operand may consist of: printable ASCII that starts no operator symbol (except the `-` of an exponent),
-    not ending in `e` -/
+    not ending in the digit·`e` of an unfinished exponent literal (`2e`, `1.5e` — a following `-` would be taken for
+    its sign; names such as `$e`, `$rate`, `$a1e` are fine) -/
 def AtomOK (ops : List Op) (x : Bytes) : Prop :=
-  x ≠ [] ∧ (∀ c ∈ x, 32 < c ∧ c < 128) ∧ atomScan ops [] x = true ∧ x.getLast? ≠ some 101
+  x ≠ [] ∧ (∀ c ∈ x, 32 < c ∧ c < 128) ∧ atomScan ops [] x = true ∧ expHack x.reverse = false
 
 theorem atomScan_plain (ops : List Op) (x : Bytes) (h : ∀ c ∈ x, startsOp ops c = false) (pre : Bytes) :
     atomScan ops pre x = true := by
@@ -209,7 +210,7 @@ theorem atomScan_plain (ops : List Op) (x : Bytes) (h : ∀ c ∈ x, startsOp op
 
 /-- an operand without exponent sign: no byte starts an operator symbol -/
 theorem atomOK_plain (ops : List Op) (x : Bytes) (h1 : x ≠ []) (h2 : ∀ c ∈ x, 32 < c ∧ c < 128 ∧ startsOp ops c = false)
-    (h3 : x.getLast? ≠ some 101) : AtomOK ops x :=
+    (h3 : expHack x.reverse = false) : AtomOK ops x :=
   ⟨h1, fun c hc => ⟨(h2 c hc).1, (h2 c hc).2.1⟩, atomScan_plain ops x (fun c hc => (h2 c hc).2.2) [], h3⟩
 
 theorem atomScan_mem (ops : List Op) (x pre : Bytes) (h : atomScan ops pre x = true) :
@@ -231,9 +232,112 @@ theorem atomScan_head (ops : List Op) (c : Nat) (t : Bytes) (h : atomScan ops []
   simp only [atomScan, expHack, Bool.and_false, Bool.or_false, Bool.and_eq_true, Bool.not_eq_true'] at h
   exact h.1
 
-theorem expHack_append (p q : Bytes) (h : expHack p = true) : expHack (p ++ q) = true := by
+/-- where a backward walk over a numeric literal may end: at the start of the expression or at a byte that is neither
+    a digit, a decimal point nor part of a name (a blank, the last byte of an operator symbol, a parenthesis) -/
+def stopByte (c : Nat) : Bool := !(isDigit c || c == 46) && !isNameByte c
+def StopPre (pre : Bytes) : Prop := ∀ c, pre.head? = some c → stopByte c = true
+
+theorem stopPre_nil : StopPre [] := by intro c h; simp at h
+
+theorem endsNumeric_append (p q : Bytes) (h : endsNumeric p = true) (hq : StopPre q) : endsNumeric (p ++ q) = true := by
+  induction p with
+  | nil =>
+    cases q with
+    | nil => rfl
+    | cons c t =>
+      have := hq c rfl
+      simp only [stopByte, Bool.and_eq_true, Bool.not_eq_true'] at this
+      simp [endsNumeric, this.1, this.2]
+  | cons ch t ih =>
+    simp only [List.cons_append, endsNumeric] at h ⊢
+    split
+    · rename_i hd; simp only [hd, if_true] at h; exact ih h
+    · rename_i hd; simpa [hd] using h
+
+theorem endsNumeric_append_false (p q : Bytes) (h : endsNumeric p = false) : endsNumeric (p ++ q) = false := by
+  induction p with
+  | nil => simp [endsNumeric] at h
+  | cons ch t ih =>
+    simp only [List.cons_append, endsNumeric] at h ⊢
+    split
+    · rename_i hd; simp only [hd, if_true] at h; exact ih h
+    · rename_i hd; simpa [hd] using h
+
+theorem expHack_append (p q : Bytes) (h : expHack p = true) (hq : StopPre q) : expHack (p ++ q) = true := by
   match p, h with
-  | 101 :: d :: r, h => simpa [expHack] using h
+  | 101 :: d :: r, h =>
+    simp only [expHack, Bool.and_eq_true] at h
+    have := endsNumeric_append (d :: r) q h.2 hq
+    simp only [List.cons_append] at this
+    simp [expHack, h.1, this]
+
+/-- an operand that does not end in an unfinished exponent keeps a following `-` an operator, whatever precedes it -/
+theorem expHack_append_false (p q : Bytes) (h : expHack p = false) (hp : p ≠ []) (hq : StopPre q) :
+    expHack (p ++ q) = false := by
+  match p, h, hp with
+  | [c], h, _ =>
+    cases q with
+    | nil => simp [expHack]
+    | cons d t =>
+      have := hq d rfl
+      simp only [stopByte, Bool.and_eq_true, Bool.not_eq_true', Bool.or_eq_false_iff] at this
+      by_cases hc : c = 101
+      · subst hc; simp [expHack, this.1.1]
+      · simp only [List.cons_append, List.nil_append]
+        unfold expHack
+        split
+        · rename_i heq; simp at heq; exact absurd heq.1 hc
+        · rfl
+  | c :: d :: r, h, _ =>
+    by_cases hc : c = 101
+    · subst hc
+      simp only [expHack, Bool.and_eq_false_iff] at h
+      rcases h with h | h
+      · simp [expHack, h]
+      · have := endsNumeric_append_false (d :: r) q h
+        simp only [List.cons_append] at this
+        simp [expHack, this]
+    · simp only [List.cons_append]
+      unfold expHack
+      split
+      · rename_i heq; simp at heq; exact absurd heq.1 hc
+      · rfl
+
+theorem stopPre_hack (pre : Bytes) (h : StopPre pre) : expHack pre = false := by
+  unfold expHack
+  split
+  · have := h 101 rfl; simp [stopByte, isNameByte, isDigit] at this
+  · rfl
+
+theorem stopPre_blank (b p : Bytes) (hb : Blank b) (hp : StopPre p) : StopPre (b.reverse ++ p) := by
+  cases hr : b.reverse with
+  | nil => simpa using hp
+  | cons c t =>
+    intro d hd
+    simp only [List.cons_append, List.head?_cons, Option.some.injEq] at hd
+    subst hd
+    have hc : c ∈ b := by
+      have : c ∈ b.reverse := by rw [hr]; simp
+      simpa using this
+    have := hb c hc
+    simp only [isScanSpace, Bool.or_eq_true, beq_iff_eq] at this
+    rcases this with ((h | h) | h) | h <;> subst h <;> decide
+
+theorem hack_blank (b p : Bytes) (hb : Blank b) (hp : expHack p = false) : expHack (b.reverse ++ p) = false := by
+  cases hr : b.reverse with
+  | nil => simpa using hp
+  | cons c t =>
+    have hc : c ∈ b := by
+      have : c ∈ b.reverse := by rw [hr]; simp
+      simpa using this
+    have := hb c hc
+    unfold expHack
+    split
+    · rename_i heq
+      simp only [List.cons_append, List.cons.injEq] at heq
+      rw [heq.1] at this
+      simp [isScanSpace] at this
+    · rfl
 
 /-- the exponent hack: after a digit and `e` no operator matches at a `-` -/
 theorem firstMatch_none_hack (ops : List Op) (hne : SymsNonempty ops)
@@ -257,7 +361,7 @@ theorem firstMatch_none_hack (ops : List Op) (hne : SymsNonempty ops)
 /-- `nextOperator` passes over the bytes of an operand -/
 theorem nextOperator_skip_atom (ops : List Op) (hne : SymsNonempty ops)
     (hM : ∀ o ∈ ops, o.sym.head? = some 45 → o.sym = MINUS) (x a : Bytes) (hx : atomScan ops a x = true)
-    (pre r : Bytes) :
+    (pre r : Bytes) (hstop : StopPre pre) :
     nextOperator ops (a ++ pre) (x ++ r) =
       (match nextOperator ops (x.reverse ++ (a ++ pre)) r with
        | some (s, o, p, q) => some (x ++ s, o, p, q)
@@ -271,7 +375,7 @@ theorem nextOperator_skip_atom (ops : List Op) (hne : SymsNonempty ops)
     have hfm : firstMatch ops (a ++ pre) (c :: (t ++ r)) = none := by
       rcases hx.1 with h1 | h1
       · exact firstMatch_none ops hne _ c _ h1
-      · rw [h1.1]; exact firstMatch_none_hack ops hne hM _ _ (expHack_append a pre h1.2)
+      · rw [h1.1]; exact firstMatch_none_hack ops hne hM _ _ (expHack_append a pre h1.2 hstop)
     simp only [List.cons_append, nextOperator, hfm]
     have := ih (c :: a) hx.2
     simp only [List.cons_append] at this
@@ -344,12 +448,12 @@ theorem loop_sym (ops : List Op) (fns : List Bytes) (hT : TableOK ops) (b : Byte
 
 /-- the operand part of an iteration: from the start of an atom to the next operator symbol -/
 theorem scan_atom (ops : List Op) (hT : TableOK ops) (x b2 : Bytes) (hx : AtomOK ops x) (hb2 : Blank b2)
-    (pre r : Bytes) :
+    (pre r : Bytes) (hstop : StopPre pre) :
     nextOperator ops pre (x ++ (b2 ++ r)) =
       (match nextOperator ops (b2.reverse ++ (x.reverse ++ pre)) r with
        | some (s, o, p, q) => some (x ++ (b2 ++ s), o, p, q)
        | none => none) := by
-  have := nextOperator_skip_atom ops hT.ne hT.minus x [] hx.2.2.1 pre (b2 ++ r)
+  have := nextOperator_skip_atom ops hT.ne hT.minus x [] hx.2.2.1 pre (b2 ++ r) hstop
   simp only [List.nil_append] at this
   rw [this, nextOperator_skip ops hT.ne b2 (fun c hc => hT.blank c (hb2 c hc))]
   cases nextOperator ops (b2.reverse ++ (x.reverse ++ pre)) r with
@@ -358,13 +462,13 @@ theorem scan_atom (ops : List Op) (hT : TableOK ops) (x b2 : Bytes) (hx : AtomOK
 
 /-- loop head, blanks, an atom, blanks, end of input -/
 theorem loop_opd_end (ops : List Op) (fns : List Bytes) (hT : TableOK ops) (b x b2 : Bytes) (hb : Blank b)
-    (hx : AtomOK ops x) (hb2 : Blank b2) (pre : Bytes) (st : St) (hv : Bool) (un : Option Op) :
+    (hx : AtomOK ops x) (hb2 : Blank b2) (pre : Bytes) (hstop : StopPre pre) (st : St) (hv : Bool) (un : Option Op) :
     parseLoop ops fns pre (b ++ (x ++ b2)) st hv un = .ok (pushOperand st un x) := by
   rw [parseLoop_blanks ops fns b hb]
   have hxc : ∀ c ∈ x, 32 < c ∧ c < 128 := hx.2.1
   have htrim := trimSpace_atom x b2 hx.1 hxc hb2
   have hno : nextOperator ops (b.reverse ++ pre) (x ++ b2) = none := by
-    have := scan_atom ops hT x b2 hx hb2 (b.reverse ++ pre) []
+    have := scan_atom ops hT x b2 hx hb2 (b.reverse ++ pre) [] (stopPre_blank b pre hb hstop)
     simp only [List.append_nil] at this
     rw [this]; simp [nextOperator]
   cases hxe : x with
@@ -379,8 +483,8 @@ theorem loop_opd_end (ops : List Op) (fns : List Bytes) (hT : TableOK ops) (b x 
 
 /-- loop head, blanks, an atom, blanks, an operator symbol -/
 theorem loop_opd_sym (ops : List Op) (fns : List Bytes) (hT : TableOK ops) (b x b2 : Bytes) (hb : Blank b)
-    (hx : AtomOK ops x) (hb2 : Blank b2) (pre rest : Bytes) (o : Op) (ho : o ∈ ops) (st : St) (hv : Bool)
-    (un : Option Op) (m2 : MSt)
+    (hx : AtomOK ops x) (hb2 : Blank b2) (pre rest : Bytes) (hstop : StopPre pre) (o : Op) (ho : o ∈ ops) (st : St)
+    (hv : Bool) (un : Option Op) (m2 : MSt)
     (hfm : firstMatch ops (b2.reverse ++ (x.reverse ++ (b.reverse ++ pre))) (o.sym ++ rest) = some o)
     (h : stepTok ⟨pushOperand st un x, true, none⟩ (.sym o) = .ok m2) :
     parseLoop ops fns pre (b ++ (x ++ (b2 ++ (o.sym ++ rest)))) st hv un =
@@ -391,7 +495,7 @@ theorem loop_opd_sym (ops : List Op) (fns : List Bytes) (hT : TableOK ops) (b x 
   have hsne : o.sym ≠ [] := hT.ne o ho
   have hnx : nextOperator ops (b.reverse ++ pre) (x ++ (b2 ++ (o.sym ++ rest))) =
       some (x ++ (b2 ++ []), o, b2.reverse ++ (x.reverse ++ (b.reverse ++ pre)), o.sym ++ rest) := by
-    rw [scan_atom ops hT x b2 hx hb2 (b.reverse ++ pre) (o.sym ++ rest)]
+    rw [scan_atom ops hT x b2 hx hb2 (b.reverse ++ pre) (o.sym ++ rest) (stopPre_blank b pre hb hstop)]
     cases hsym : o.sym with
     | nil => exact absurd hsym hsne
     | cons c s =>
@@ -418,7 +522,7 @@ theorem loop_opd_sym (ops : List Op) (fns : List Bytes) (hT : TableOK ops) (b x 
     continues behind the closing parenthesis with an operand pending -/
 theorem loop_call (ops : List Op) (fns : List Bytes) (hT : TableOK ops) (lp rp : Op) (hP : ParenTable ops lp rp)
     (b0 f b args : Bytes) (hb0 : Blank b0) (hf : AtomOK ops f) (hfn : f ∈ fns) (hb : Blank b) (ha : Bal args)
-    (pre rest : Bytes) (st : St) (hv : Bool) (un : Option Op) :
+    (pre rest : Bytes) (hstop : StopPre pre) (st : St) (hv : Bool) (un : Option Op) :
     parseLoop ops fns pre (b0 ++ (f ++ (b ++ (40 :: (args ++ 41 :: rest))))) st hv un =
       parseLoop ops fns (41 :: (args.reverse ++ 40 :: (b.reverse ++ (f.reverse ++ (b0.reverse ++ pre))))) rest
         (pushCall st un f args) true none := by
@@ -427,7 +531,7 @@ theorem loop_call (ops : List Op) (fns : List Bytes) (hT : TableOK ops) (lp rp :
   have htrim := trimSpace_atom f b hf.1 hxc hb
   have hnx : nextOperator ops (b0.reverse ++ pre) (f ++ (b ++ (40 :: (args ++ 41 :: rest)))) =
       some (f ++ (b ++ []), lp, b.reverse ++ (f.reverse ++ (b0.reverse ++ pre)), 40 :: (args ++ 41 :: rest)) := by
-    rw [scan_atom ops hT f b hf hb (b0.reverse ++ pre) (40 :: (args ++ 41 :: rest)),
+    rw [scan_atom ops hT f b hf hb (b0.reverse ++ pre) (40 :: (args ++ 41 :: rest)) (stopPre_blank b0 pre hb0 hstop),
       nextOperator_here ops _ 40 _ lp (hP.lp40 _ _)]
   have hcap : captureArgs ops ((args ++ 41 :: rest).length + 1) 1
       (40 :: (b.reverse ++ (f.reverse ++ (b0.reverse ++ pre)))) (args ++ 41 :: rest) [] =
@@ -468,13 +572,14 @@ def render (ws : Nat → Bytes) : Nat → List Tok → Bytes
 
 /-- side conditions on the operator table for the symbol lookup: at the first byte of a symbol the table order finds
     that operator unless the next byte is `=` (`!`/`!=`, `<`/`<=`, `>`/`>=`; a closing parenthesis is never
-    ambiguous); `=` starts a symbol (so it is not an atom byte); no unary operator starts with `=`; no symbol ends
-    in `e` -/
+    ambiguous); `=` starts a symbol (so it is not an atom byte); no unary operator starts with `=`; every symbol ends
+    in a byte that is neither a digit, a decimal point nor part of a name -/
 structure LexTable (ops : List Op) : Prop extends TableOK ops where
-  fm : ∀ o ∈ ops, ∀ pre rest, NoE pre → (o.sym = RP ∨ rest.head? ≠ some 61) → firstMatch ops pre (o.sym ++ rest) = some o
+  fm : ∀ o ∈ ops, ∀ pre rest, expHack pre = false → (o.sym = RP ∨ rest.head? ≠ some 61) →
+    firstMatch ops pre (o.sym ++ rest) = some o
   eq61 : startsOp ops 61 = true
   un61 : ∀ u ∈ ops, u.un = true → u.sym.head? ≠ some 61
-  lastE : ∀ o ∈ ops, o.sym.getLast? ≠ some 101
+  lastStop : ∀ o ∈ ops, ∀ c, o.sym.getLast? = some c → stopByte c = true
 
 /-- the next token does not start with `=` -/
 def NextNot61 : List Tok → Prop
@@ -519,35 +624,55 @@ theorem runToks_cons_ok (m m' : MSt) (t : Tok) (ts : List Tok) (h : runToks m (t
   | err => simp [hs] at h
   | panic => simp [hs] at h
 
+/-- the next token is scanned as an operand (an atom or the name of a call) -/
+def NeedStop : List Tok → Prop
+  | .opd _ :: _ => True
+  | .call _ _ _ :: _ => True
+  | _ => False
+
+theorem stopPre_sym (ops : List Op) (hL : LexTable ops) (o : Op) (ho : o ∈ ops) (p : Bytes) :
+    StopPre (o.sym.reverse ++ p) := by
+  have hne := hL.ne o ho
+  cases hr : o.sym.reverse with
+  | nil => simp at hr; exact absurd hr hne
+  | cons c t =>
+    intro d hd
+    simp only [List.cons_append, List.head?_cons, Option.some.injEq] at hd
+    subst hd
+    apply hL.lastStop o ho
+    have : o.sym.reverse.head? = some c := by rw [hr]; rfl
+    rwa [List.head?_reverse] at this
+
 /-- **the bridge**: if the token machine accepts a lexable token list, the character-level scan loop run on any blank
     layout of it ends with the same stacks -/
 theorem parseLoop_render (ops : List Op) (fns : List Bytes) (hL : LexTable ops) (lp rp : Op)
     (hP : ParenTable ops lp rp) (ws : Nat → Bytes) (hws : ∀ k, Blank (ws k)) :
-    ∀ (ts : List Tok) (k : Nat) (m m' : MSt) (pre : Bytes), NoE pre → LexOK ops fns ts → runToks m ts = .ok m' →
+    ∀ (ts : List Tok) (k : Nat) (m m' : MSt) (pre : Bytes), expHack pre = false → (NeedStop ts → StopPre pre) →
+      LexOK ops fns ts → runToks m ts = .ok m' →
       parseLoop ops fns pre (render ws k ts) m.st m.hv m.un = .ok m'.st := by
   intro ts
   have hT : TableOK ops := hL.toTableOK
   induction ts with
   | nil =>
-    intro k m m' pre _ _ hrun
+    intro k m m' pre _ _ _ hrun
     simp only [runToks] at hrun
     injection hrun with hrun; subst hrun
     have := parseLoop_blanks ops fns (ws k) (hws k) pre [] m.st m.hv m.un
     simp only [List.append_nil] at this
     simp only [render, this, parseLoop_nil]
   | cons t ts ih =>
-    intro k m m' pre hpre hlex hrun
+    intro k m m' pre hpre hstop hlex hrun
     obtain ⟨m1, hstep, hrest⟩ := runToks_cons_ok m m' t ts hrun
     cases t with
     | sym o =>
       obtain ⟨ho, hnb, hlex'⟩ := hlex
-      have hlast := hL.lastE o ho
-      have hfm : ∀ pre, NoE pre → firstMatch ops pre (o.sym ++ render ws (k + 1) ts) = some o := fun p hp =>
+      have hfm : ∀ pre, expHack pre = false → firstMatch ops pre (o.sym ++ render ws (k + 1) ts) = some o := fun p hp =>
         hL.fm o ho p _ hp (hnb.elim Or.inl (fun h => Or.inr (render_not61 ws hws _ _ h)))
-      have hpre1 : NoE ((ws k).reverse ++ pre) := noE_rev _ _ hpre (blank_last _ (hws k))
+      have hpre1 : expHack ((ws k).reverse ++ pre) = false := hack_blank _ _ (hws k) hpre
       simp only [render, Tok.bytes]
       rw [loop_sym ops fns hT (ws k) (hws k) pre _ o ho m m1 (hfm _ hpre1) hstep]
-      exact ih (k + 1) m1 m' _ (noE_rev _ _ hpre1 hlast) hlex' hrest
+      have hs := stopPre_sym ops hL o ho ((ws k).reverse ++ pre)
+      exact ih (k + 1) m1 m' _ (stopPre_hack _ hs) (fun _ => hs) hlex' hrest
     | call f b args =>
       obtain ⟨hf, hfn, hb, ha, hlex'⟩ := hlex
       have hm1 : m1 = ⟨pushCall m.st m.un f args, true, none⟩ := by
@@ -557,10 +682,13 @@ theorem parseLoop_render (ops : List Op) (fns : List Bytes) (hL : LexTable ops) 
           ws k ++ (f ++ (b ++ (40 :: (args ++ 41 :: render ws (k + 1) ts)))) := by
         simp [Tok.bytes, List.append_assoc]
       simp only [render]
-      rw [e, loop_call ops fns hT lp rp hP (ws k) f b args (hws k) hf hfn hb ha]
-      exact ih (k + 1) _ m' _ (by simp [NoE]) hlex' hrest
+      rw [e, loop_call ops fns hT lp rp hP (ws k) f b args (hws k) hf hfn hb ha _ _ (hstop trivial)]
+      have hs : StopPre (41 :: (args.reverse ++ 40 :: (b.reverse ++ (f.reverse ++ ((ws k).reverse ++ pre))))) := by
+        intro c hc; simp at hc; subst hc; decide
+      exact ih (k + 1) _ m' _ (stopPre_hack _ hs) (fun _ => hs) hlex' hrest
     | opd x =>
       obtain ⟨hx, hnext, hlex'⟩ := hlex
+      have hsp : StopPre pre := hstop trivial
       have hm1 : m1 = ⟨pushOperand m.st m.un x, true, none⟩ := by
         simp only [stepTok] at hstep; injection hstep with hstep; exact hstep.symm
       rcases hnext with hnil | ⟨o, ts', hts⟩
@@ -568,22 +696,23 @@ theorem parseLoop_render (ops : List Op) (fns : List Bytes) (hL : LexTable ops) 
         simp only [runToks] at hrest
         injection hrest with hrest; subst hrest
         simp only [render, Tok.bytes]
-        rw [loop_opd_end ops fns hT (ws k) x (ws (k + 1)) (hws k) hx (hws (k + 1))]
+        rw [loop_opd_end ops fns hT (ws k) x (ws (k + 1)) (hws k) hx (hws (k + 1)) pre hsp]
         rw [hm1]
       · subst hts
         subst hm1
         obtain ⟨m2, hstep2, _⟩ := runToks_cons_ok _ m' (.sym o) ts' hrest
-        have hpre1 : NoE ((ws k).reverse ++ pre) := noE_rev _ _ hpre (blank_last _ (hws k))
-        have hpre2 : NoE (x.reverse ++ ((ws k).reverse ++ pre)) := noE_rev _ _ hpre1 hx.2.2.2
-        have hpre3 : NoE ((ws (k + 1)).reverse ++ (x.reverse ++ ((ws k).reverse ++ pre))) :=
-          noE_rev _ _ hpre2 (blank_last _ (hws (k + 1)))
-        have key := ih (k + 1) _ m' _ hpre2 hlex' hrest
+        have hsp1 : StopPre ((ws k).reverse ++ pre) := stopPre_blank _ _ (hws k) hsp
+        have hpre2 : expHack (x.reverse ++ ((ws k).reverse ++ pre)) = false :=
+          expHack_append_false _ _ hx.2.2.2 (by simpa using hx.1) hsp1
+        have hpre3 : expHack ((ws (k + 1)).reverse ++ (x.reverse ++ ((ws k).reverse ++ pre))) = false :=
+          hack_blank _ _ (hws (k + 1)) hpre2
+        have key := ih (k + 1) _ m' _ hpre2 (fun h => absurd h (by simp [NeedStop])) hlex' hrest
         obtain ⟨ho, hnb, _⟩ := hlex'
-        have hfm : ∀ pre, NoE pre → firstMatch ops pre (o.sym ++ render ws (k + 1 + 1) ts') = some o := fun p hp =>
-          hL.fm o ho p _ hp (hnb.elim Or.inl (fun h => Or.inr (render_not61 ws hws _ _ h)))
+        have hfm : ∀ pre, expHack pre = false → firstMatch ops pre (o.sym ++ render ws (k + 1 + 1) ts') = some o :=
+          fun p hp => hL.fm o ho p _ hp (hnb.elim Or.inl (fun h => Or.inr (render_not61 ws hws _ _ h)))
         simp only [render, Tok.bytes] at key ⊢
         rw [loop_sym ops fns hT (ws (k + 1)) (hws (k + 1)) _ _ o ho _ m2 (hfm _ hpre3) hstep2] at key
-        rw [loop_opd_sym ops fns hT (ws k) x (ws (k + 1)) (hws k) hx (hws (k + 1)) pre _ o ho m.st m.hv m.un m2
+        rw [loop_opd_sym ops fns hT (ws k) x (ws (k + 1)) (hws k) hx (hws (k + 1)) pre _ hsp o ho m.st m.hv m.un m2
           (hfm _ hpre3) hstep2]
         exact key
 
